@@ -300,6 +300,7 @@ func runConc(k *vlib.Case, mode concMode) {
 	sort.Slice(all, func(i, j int) bool { return all[i].call < all[j].call })
 	k.C.Count("conc_events", int64(len(all)))
 	k.C.Count("conc_rebuilds", int64(len(builds)))
+	k.C.Count("conc_datastore_writes_stamped", int64(len(tap.writes)))
 
 	analyse(k, cfg, mode, all, builds, tap.writes, initial, nkeys)
 
@@ -647,6 +648,7 @@ func analyse(k *vlib.Case, cfg stackCfg, mode concMode, all, builds []ev, writes
 					break
 				}
 				if v == vhist.Ok {
+					c.Count("relaxed_model_explained_partitions", 1)
 					class, nelig = try.class, nw
 					if len(swapWindowReads) > 0 && onlySwap(ops, swapWindowReads) {
 						class = "swap"
@@ -712,7 +714,7 @@ func runHammer(k *vlib.Case, mode concMode) {
 	nkeys := r.Range(2, 5)
 	keys := mkKeys(r, nkeys)
 	nreaders := r.Range(3, 7)
-	reads := k.C.N(6000, 12000)
+	reads := k.C.N(5000, 12000)
 	if v := os.Getenv("VERIF_C02_HAMMER_READS"); v != "" {
 		fmt.Sscan(v, &reads)
 	}
